@@ -563,8 +563,21 @@ func followers(c *xs.Ctx, r *xs.Result, s *hx.Step) {
 	r.Count("follower_comparisons", 2)
 }
 
+// Setup / Alphabet / Bases: the reward histories are also explored by C01 under the supply oracle.
+func Setup() {
+	configure()
+	registerOps()
+}
+func Alphabet(thorough bool) []ops.Op { return alphabet(thorough) }
+func Bases() []hx.Base                { return append(bases(), outageBases()...) }
+
 func run(c *xs.Ctx, r *xs.Result) {
 	configure()
+	registerOps()
+	runChecked(c, r)
+}
+
+func registerOps() {
 	// CancelStake0: the owner cancels the first stake it ever made
 	ops.Extra["CancelStake0"] = func(n *vnode.Node, o ops.Op) string {
 		owner := ops.Users[o.A].Address
@@ -579,6 +592,9 @@ func run(c *xs.Ctx, r *xs.Result) {
 		}
 		return "ok"
 	}
+}
+
+func runChecked(c *xs.Ctx, r *xs.Result) {
 	if c.Replay != nil {
 		var rep struct {
 			Base    string   `json:"base"`
